@@ -65,7 +65,7 @@ ASSUMPTIONS = [
 
 def vacuity(agg):
     n = agg.probes.get("baseline_unloadable", 0)
-    if agg.evaluations and n * 5 > agg.evaluations:
+    if agg.evaluations and n * 2 > agg.evaluations:
         return (f"in {n} of {agg.evaluations} runs the canonical rendering did not load as the first load of a pristine "
                 f"process; nothing could be judged there")
     return None
@@ -244,14 +244,11 @@ def run(ch, render=False):
         res = baseline_in_pristine_child(canon[i], pkts[i])
         base.append(res)
         w.ev("baseline", "computed", i, res[0], zlib.crc32(repr(res[1]).encode()))
-    if any(b[0] != "ok" for b in base):
-        # the canonical rendering itself does not load as the first load: outside this property (nothing to
-        # compare with). Counted, not judged.
+    # a document whose canonical rendering does not load as the first load has no definition to compare with; the
+    # only thing the property then says is that it must not load under any other spelling or history either
+    unloadable = [b[0] != "ok" for b in base]
+    if any(unloadable):
         w.probe("baseline_unloadable")
-        out.log, out.faults, out.probes = w.log, w.faults, w.probes
-        if render:
-            out.sample = {"note": "canonical rendering of a drawn document does not load", "detail": [b[1] for b in base if b[0] != "ok"]}
-        return out
     same_first = {}
     for e in plan:
         if e["op"] == "load_ok":
@@ -350,6 +347,16 @@ def run(ch, render=False):
                             w.probe("chain_prefix_default_none")
                         if rd != xf.CANONICAL:
                             judged_noncanon = True
+                        if unloadable[di]:
+                            if err is None:
+                                out.fail("loads_only_in_some_spellings",
+                                         f"operation {opi}: {rd_desc} via {via} loads, but the canonical rendering (prefix xtce, "
+                                         f"compact, no comments) of the same document fails as the first load of a pristine "
+                                         f"process with {base[di][1]}", "loads_only_in_some_spellings")
+                                break
+                            loaded.append(None)
+                            prev_bad = None
+                            continue
                         if err is not None:
                             out.fail("load_failed", f"operation {opi}: loading {rd_desc} via {via} raised "
                                                     f"{type(err).__name__}: {err}; the canonical rendering loads as first load",
@@ -365,6 +372,8 @@ def run(ch, render=False):
                             w.probe("bad_load_succeeded_" + op[4:])
                         prev_bad = op[4:]
                         bad_before_judged = True
+                elif op in ("use_earlier", "serialize_earlier") and loaded[e["which"]] is None:
+                    continue                # refers to a document that cannot be loaded in any spelling
                 elif op == "use_earlier":
                     di, defn, nsc, key = loaded[e["which"]]
                     w.ev("proc", op, di)
